@@ -1,6 +1,7 @@
 package props
 
 import (
+	"github.com/celestiaorg/go-header/p2p"
 	"github.com/celestiaorg/go-header/store"
 	hsync "github.com/celestiaorg/go-header/sync"
 
@@ -16,10 +17,12 @@ func installHooks(s *core.Sim, on bool) {
 	if s == nil {
 		store.SimAutoYield, store.SimLockDepth = nil, nil
 		hsync.SimAutoYield, hsync.SimLockDepth = nil, nil
+		p2p.SimAutoYield, p2p.SimLockDepth = nil, nil
 	} else {
 		// the mechanically inserted park points (sim/autoyield); live only when the run says so
 		store.SimAutoYield, store.SimLockDepth = s.AutoYield, s.LockDepth
 		hsync.SimAutoYield, hsync.SimLockDepth = s.AutoYield, s.LockDepth
+		p2p.SimAutoYield, p2p.SimLockDepth = s.AutoYield, s.LockDepth
 	}
 	if s == nil || !on {
 		store.SimHook.Yield = nil
